@@ -93,8 +93,21 @@ MORE2 = {  # worlds added with the repair-review rounds 6-8
  "C19": "; const / Enum / lax-bound fields whose values are mutable, deque defaults, two declarations sharing one Field object whose types are named by reference, an instance re-initialised after a refused initialisation, nested instances assigned after union trial passes (P4), discriminated declarations that are refused at first use",
  "C20": "; a function's return declaration and a second module's function resolved for the first time by concurrent calls, profiled write cuts",
 }
+MORE3 = {  # worlds added with the sixth round of seeded changes and review round 9
+ "C04": "; a constrained type with pre_validate / post_validate hooks of its own alone at the top of a call",
+ "C06": "; the library's marker for 'not provided' as an input value",
+ "C07": "; an aliased case-insensitive field with a dependant, a property deleter that fails after it has changed the instance",
+ "C08": "; bare Generator / AsyncIterator annotations (a decoration that fails is a violation)",
+ "C10": "; runs under invalid_values='exclude' with dependencies on required fields, a fourth typed output under a cap of 2, additional items typed by a constrained leaf",
+ "C11": "; unions pairing a sequence with a mapping (the value's own kind first under the policies), the key policy as the only one that is on, pair-list inputs with an unknown discriminator, fields required by mode that have a default",
+ "C17": "; Array / Object fields under a constraint, Annotated[..., Field(...)] around references under postponed evaluation, Self in a lazily evaluated annotation inherited by a subclass that re-defaults the field (own small world with a direct twin), local classes that name each other",
+ "C19": "; mutable members inside deque / defaultdict defaults, data class instances as defaults (one immutable), one-shot iterators through unions (P5), re-initialisation after an accepted initialisation that left a field out",
+ "C20": "; a thread declaring another module whose class body builds an operator union over the spelling another thread is resolving",
+}
 for _k, _v in MORE.items():
     CLAIMED[_k]["level"] += _v
+for _k, _v in MORE3.items():
+    MORE2[_k] = MORE2.get(_k, "") + _v
 for _k, _v in MORE2.items():
     CLAIMED[_k]["level"] += _v
 CLAIMED["C20"]["note"] = CLAIMED["C20"]["note"].replace("races that need two narrow windows are hit ~2 per 10000 runs (thorough tier)", "races that need two narrow windows are reached through the anchor-cut schedules (the three seeded ones within the quick tier's 6000 runs)")
